@@ -204,6 +204,11 @@ def oracle(case, res):
     return None
 
 
+def side(ctx, proof):
+    from . import tcp as T
+    return T.stable(lambda: T.limit_under_lock_runs(ctx, (6 if ctx.tier == "quick" else 120) * (1 if proof["build_ok"] else 3)))
+
+
 def run(ctx):
     return L.run_link_property(
         ctx, PID, gen_cases, oracle,
@@ -217,7 +222,8 @@ def run(ctx):
         nontrivial=lambda c: bool(c.get("ops")) or sum(e.get("n", 0) for e in c["src"]) >= max(1, ([t for t in c["chain"] if t["type"] == "limit_data"] or [{"attributes": {"bytes": 1 << 62}}])[0]["attributes"]["bytes"]),
         assumptions=["histories with updates or neighbour reconfiguration are judged by the oracle (the executable model replays static chains); "
                      "the restart rule is theorem C11_restart and the regenerated fact state_created_only_for_new_stubs",
-                     "known finding F11: the budget N - counter wraps for N near min64 after bytes were counted"])
+                     "known finding F11: the budget N - counter wraps for N near min64 after bytes were counted"],
+        side_findings=side)
 
 
 def replay(ctx, path):
